@@ -66,7 +66,7 @@ def gen_cases(tier, seed, shard, nshards):
             if tier == 'quick' and be == 'disk' and (idx * 5 + n) % 2:
                 idx += 1
                 continue
-            for shape in ('map', 'seq'):
+            for shape in ('map', 'seq', 'map-rev'):
                 idx += 1
                 if idx % nshards != shard:
                     continue
